@@ -141,7 +141,9 @@ func renderResult(stdout io.Writer, opts renderOptions, data lokiapi.QueryRespon
 			}
 		}
 		slices.SortFunc(entries, func(a, b entry) int {
-			return cmp.Compare(a.T, b.T)
+			// T is printed as a signed nanosecond count (see below), order by the same
+			// value: an entry dated before 1970 comes first, not last.
+			return cmp.Compare(int64(a.T), int64(b.T))
 		})
 
 		var buf []byte
